@@ -315,6 +315,65 @@ func genC14(o *hx.Out, tier string) {
 		o.Add("custom close cause", impl, "lives", "1", "K"+strconv.Itoa(cause))
 	}
 
+	// (3b) custom endpoint, several lives: after a read fault the endpoint hands its transport out
+	// again; the next channel delivers what the transport delivers next and reports the transport's
+	// next fault, not something left over from the channel before it
+	for sc := 0; sc < 4; sc++ {
+		p := scn.NewPipe("c2")
+		node := newNode([]*scn.Pipe{p}, func(c *gomavlib.NodeConf) { c.Dialect = d })
+		col := scn.NewCollector(node, 0, false)
+		nlives := 2 + sc%2
+		var want []string
+		for l := 0; l < nlives; l++ {
+			nf := 1 + r.Intn(3)
+			for i := 0; i < nf; i++ {
+				p.Feed(frameB)
+			}
+			cause := 100*(l+1) + r.Intn(90)
+			p.FeedErr(causeErr{cause})
+			want = append(want, fmt.Sprintf("O F%d C%d", nf, cause))
+		}
+		col.Wait(func() bool {
+			n := 0
+			for _, ch := range col.Channels() {
+				for _, e := range col.Events(ch) {
+					if _, ok := e.(*gomavlib.EventChannelClose); ok {
+						n++
+					}
+				}
+			}
+			return n >= nlives
+		})
+		var got []string
+		for _, ch := range col.Channels() {
+			nf := 0
+			cl := ""
+			for _, e := range col.Events(ch) {
+				switch e := e.(type) {
+				case *gomavlib.EventFrame:
+					nf++
+				case *gomavlib.EventChannelClose:
+					var c causeErr
+					if errors.As(e.Error, &c) {
+						cl = " C" + strconv.Itoa(c.code)
+					} else {
+						cl = fmt.Sprintf(" C(%v)", e.Error)
+					}
+				}
+			}
+			got = append(got, fmt.Sprintf("O F%d%s", nf, cl))
+		}
+		if len(got) > nlives {
+			got = got[:nlives] // the channel opened after the last fault is still waiting for input
+		}
+		verdict := "ok"
+		if strings.Join(got, " | ") != strings.Join(want, " | ") {
+			verdict = "LIVES " + strings.Join(got, " | ") + " WANT " + strings.Join(want, " | ")
+		}
+		scn.CloseWithin(node, 10*time.Second)
+		o.Add("custom endpoint, several lives", verdict, "expect", "ok", fmt.Sprintf("custom-lives sc=%d", sc))
+	}
+
 	// (4) TCP client: the server accepts, sends a frame and hangs up, k times, with a period
 	// during which nothing listens
 	base := 25000 + int(hx.Seed()%100)*20
